@@ -10,7 +10,7 @@ use crate::gen::typed::G;
 use cardano_serialization_lib as csl;
 use csl::*;
 use serde_json::json;
-use vkit::cbor::{self, Item};
+use vkit::cbor::{self, Item, V};
 use vkit::rng::Rng;
 
 pub fn def() -> PropDef {
@@ -50,6 +50,7 @@ fn streams() -> Vec<Stream> {
         Stream { name: "nesting", count: (1_600, 40_000), exhaustive: false, run: nesting },
         Stream { name: "huge-lengths-forked", count: (4_800, 200_000), exhaustive: false, run: huge_lengths },
         Stream { name: "text", count: (300_000, 8_000_000), exhaustive: false, run: text },
+        Stream { name: "overdeclared-lengths", count: (40_000, 1_000_000), exhaustive: false, run: overdeclared },
     ]
 }
 
@@ -680,6 +681,102 @@ fn grammar(ctx: &mut Ctx, r: &mut Rng, _i: u64) {
             let call = registry_call(f);
             judge_bytes(ctx, &format!("{}::from_bytes", f.name), &b, &call, "grammar");
         }
+    }
+}
+
+/// definite array / map heads below the root, as (offset of the head, major, declared length, head length)
+fn definite_heads(it: &Item, root: bool, out: &mut Vec<(usize, u8, u64, usize)>) {
+    let (major, len, kids): (u8, u64, Vec<&Item>) = match &it.v {
+        V::A(xs) => (4, xs.len() as u64, xs.iter().collect()),
+        V::M(es) => (5, es.len() as u64, es.iter().flat_map(|(k, v)| vec![k, v]).collect()),
+        V::Tag(_, inner) => {
+            definite_heads(inner, root, out);
+            return;
+        }
+        _ => return,
+    };
+    if !root && !it.indef {
+        let hl = match it.w {
+            0 => 1,
+            w => 1 + w as usize,
+        };
+        out.push((it.start, major, len, hl));
+    }
+    for k in kids {
+        definite_heads(k, false, out);
+    }
+}
+
+/// a valid transaction whose body / witness set / auxiliary data holds one container that DECLARES more
+/// elements than it has (the rest of the bytes untouched), fed to the parsers that keep those parts as
+/// raw bytes: whatever they accept must re-encode as well-formed CBOR
+fn overdeclared(ctx: &mut Ctx, r: &mut Rng, _i: u64) {
+    let s = st(ctx);
+    let e = match s.reg.iter().find(|e| e.name == "Transaction") {
+        Some(e) => e,
+        None => return,
+    };
+    let bytes = match valid_encoding(r, e) {
+        Some(b) => b,
+        None => return,
+    };
+    let tx = match cbor::parse(&bytes) {
+        Ok(i) => i,
+        Err(_) => return,
+    };
+    let parts = match tx.as_arr() {
+        Some(p) if p.len() == 4 => p,
+        _ => return,
+    };
+    let which = r.usize(3);
+    let part = &parts[[0usize, 1, 3][which]];
+    let mut heads = vec![];
+    definite_heads(part, true, &mut heads);
+    if heads.is_empty() {
+        ctx.bucket("overdeclared.no-inner-container");
+        return;
+    }
+    let (off, major, len, hl) = heads[r.usize(heads.len())];
+    let add = *r.pick(&[1u64, 1, 2, 7, 200, 70_000, 1 << 20]);
+    let mut head = vec![];
+    let n = len + add;
+    if n < 24 {
+        head.push((major << 5) | n as u8);
+    } else if n < 256 {
+        head.extend_from_slice(&[(major << 5) | 24, n as u8]);
+    } else if n < 65_536 {
+        head.push((major << 5) | 25);
+        head.extend_from_slice(&(n as u16).to_be_bytes());
+    } else {
+        head.push((major << 5) | 26);
+        head.extend_from_slice(&(n as u32).to_be_bytes());
+    }
+    let mut whole = bytes.clone();
+    whole.splice(off..off + hl, head.iter().cloned());
+    let delta = head.len() as isize - hl as isize;
+    let pstart = part.start;
+    let pend = (part.end as isize + delta) as usize;
+    let pbytes = whole[pstart..pend].to_vec();
+    ctx.bucket("overdeclared.cases");
+    ctx.bucket(&format!("overdeclared.part.{}", ["body", "witness-set", "auxiliary-data"][which]));
+    let by_name = |n: &str| s.extra.iter().find(|p| p.name == n);
+    if let Some(p) = by_name("FixedTransaction::from_bytes") {
+        judge_bytes(ctx, p.name, &whole, &|x| (p.call)(x), "overdeclared");
+    }
+    let own = match which {
+        0 => vec!["FixedTransactionBody::from_bytes", "FixedTransaction::new_from_body_bytes"],
+        1 => vec!["FixedTxWitnessesSet::from_bytes", "FixedTransaction::new(valid-body, witness-set)"],
+        _ => vec!["FixedTransaction::new_with_auxiliary(valid-body, {}, aux)"],
+    };
+    for n in own {
+        if let Some(p) = by_name(n) {
+            judge_bytes(ctx, p.name, &pbytes, &|x| (p.call)(x), "overdeclared");
+        }
+    }
+    let reg = ["TransactionBody", "TransactionWitnessSet", "AuxiliaryData"][which];
+    if let Some(f) = s.reg.iter().find(|f| f.name == reg) {
+        let call = registry_call(f);
+        judge_bytes(ctx, &format!("{}::from_bytes", f.name), &pbytes, &call, "overdeclared");
     }
 }
 
